@@ -956,7 +956,7 @@ def so_explore(args) -> Dict[str, Any]:
     stats = {"executions": 0, "deadlocks": 0, "steplimit": 0, "unexpected_thread_exc": 0}
     exc_samples: List[str] = []
     build = so_build(sc)
-    focus = FOCUS_C32 + (("reactivex/subject/replaysubject.py",) if sc["kind"] == "replay" else ()) if lines else ()
+    focus = FOCUS_C32 if lines else ()
 
     def run_one(choose):
         return _run_execution(build, choose, focus=focus, max_steps=6000)
@@ -1017,20 +1017,21 @@ def so_scenarios(tier: str, seed: int) -> List[Dict[str, Any]]:
     quick = tier == "quick"
     out: List[Dict[str, Any]] = []
 
-    def add(kind, scripts, sched, raise_at, limit):
+    def add(kind, scripts, sched, raise_at, limit, budget=0):
         orders = arrival_orders(list(scripts), limit, seed) if len(scripts) > 1 else [None]
         for order in orders:
-            out.append({"kind": kind, "scripts": [list(x) for x in scripts], "sched": sched, "raise_at": raise_at, "order": order})
+            out.append({"kind": kind, "scripts": [list(x) for x in scripts], "sched": sched, "raise_at": raise_at, "order": order,
+                        "budget": budget})
     if quick:
-        add("observe_on", ("NNC",), "eventloop", 0, 1)
-        add("observe_on", ("NNNE",), "eventloop", 0, 1)
-        add("observe_on", ("NNC",), "eventloop", 2, 1)
-        add("observe_on", ("NCN",), "eventloop_exit", 0, 1)
-        add("observe_on", ("NNC",), "newthread", 0, 1)
-        add("observe_on", ("NNC",), "timeout", 1, 1)
-        add("observe_on_merge", ("NC", "NE"), "eventloop", 0, 2)
-        add("replay", ("NNC", "U"), "eventloop", 0, 3)
-        add("replay", ("NNE", "U"), "newthread", 2, 2)
+        add("observe_on", ("NNC",), "eventloop", 0, 1, 60)
+        add("observe_on", ("NNNE",), "eventloop", 0, 1, 40)
+        add("observe_on", ("NNC",), "eventloop", 2, 1, 40)
+        add("observe_on", ("NCN",), "eventloop_exit", 0, 1, 30)
+        add("observe_on", ("NNC",), "newthread", 0, 1, 40)
+        add("observe_on", ("NNC",), "timeout", 1, 1, 30)
+        add("observe_on_merge", ("NC", "NE"), "eventloop", 0, 1, 50)
+        add("replay", ("NNC", "U"), "eventloop", 0, 2, 50)
+        add("replay", ("NNE", "U"), "newthread", 2, 1, 40)
     else:
         for sched in ("eventloop", "eventloop_exit", "newthread", "timeout"):
             for scr in ("C", "NC", "NNC", "NNNC", "NNNNC", "NNE", "NCN", "NEC", "NNN"):
@@ -1048,35 +1049,46 @@ def so_scenarios(tier: str, seed: int) -> List[Dict[str, Any]]:
 
 def so_design(ck, tier: str) -> None:
     quick = tier == "quick"
-    # the abstract object: every interleaving of producers and loop threads
-    cfg = tlc.cfg_text(dict(Producers={1, 2}, LoopThreads={11, 12}, MaxCalls=3 if quick else 5), spec="Spec",
-                       invariants=["TypeOK", "Prefix", "OneTerminal", "NothingAfterFault"], properties=["FaultSticky", "Monotone"])
-    res = tlc.run("ScheduledObserver", cfg, workers=2, timeout=900, coverage=True, allow_violation=False)
-    need = ("GenCall", "Lin", "Ret", "GenStart", "DeliverEnd", "GenIdle")
-    never = [a for a in need if res.coverage.get(a, 0) == 0]
-    if never:
-        raise tlc.TLCFailure(f"vacuous ScheduledObserver design run: {never}")
-    ck.add_tlc(res, "design: abstract scheduled observer, all interleavings of producers and scheduler threads")
-    # the handshake as implemented (PlusCal), one event-loop thread and a two-thread pool
-    runs = [({1}, True, 3 if quick else 4)] + ([] if quick else [({1, 2}, False, 4)])
-    if quick:
-        runs.append(({1, 2}, False, 2))
-    for drains, dies, mx in runs:
+    from concurrent.futures import ThreadPoolExecutor
+
+    def abstract():
+        # the abstract object: every interleaving of producers and loop threads
+        cfg = tlc.cfg_text(dict(Producers={1, 2}, LoopThreads={11, 12}, MaxCalls=3 if quick else 5), spec="Spec",
+                           invariants=["TypeOK", "Prefix", "OneTerminal", "NothingAfterFault"], properties=["FaultSticky", "Monotone"])
+        res = tlc.run("ScheduledObserver", cfg, workers=1 if quick else 2, timeout=1800, coverage=True, allow_violation=False)
+        need = ("GenCall", "Lin", "Ret", "GenStart", "DeliverEnd", "GenIdle")
+        never = [a for a in need if res.coverage.get(a, 0) == 0]
+        if never:
+            raise tlc.TLCFailure(f"vacuous ScheduledObserver design run: {never}")
+        return [(res, "design: abstract scheduled observer, all interleavings of producers and scheduler threads")]
+
+    def impl(drains, dies, mx):
+        # the handshake as implemented (PlusCal)
         cfg = tlc.cfg_text(dict(MaxNotes=mx, Drains=drains, LoopDies=dies, Bug="none"), spec="Spec",
                            invariants=["Serial", "OrderOK", "NothingLeftBehind", "OneRunner", "LockOK"], properties=["EventuallyDelivered"])
-        res = tlc.run("ScheduledObserverImpl", cfg, workers=2, timeout=2400, coverage=True, allow_violation=False)
+        res = tlc.run("ScheduledObserverImpl", cfg, workers=1 if quick else 2, timeout=3000, coverage=True, allow_violation=False)
         labels = ("p0", "pa", "pl", "pe", "ps", "pi", "d0", "dl", "dc", "dw", "de", "df", "dg", "dr")
         never = [a for a in labels if res.coverage.get(a, 0) == 0]
         if never:
             raise tlc.TLCFailure(f"vacuous ScheduledObserverImpl run: labels never taken {never}")
-        ck.add_tlc(res, f"design: queue/is_acquired/has_faulted handshake as implemented (PlusCal), {len(drains)} scheduler thread(s), <= {mx} notifications, safety + liveness")
-    if not quick:
+        return [(res, f"design: queue/is_acquired/has_faulted handshake as implemented (PlusCal), {len(drains)} scheduler thread(s), "
+                      f"<= {mx} notifications, safety + liveness")]
+
+    def control():
         # negative control: the model without the is_acquired reset must break NothingLeftBehind
         cfg = tlc.cfg_text(dict(MaxNotes=3, Drains={1}, LoopDies=True, Bug="keep_acquired"), spec="Spec", invariants=["NothingLeftBehind"])
-        res = tlc.run("ScheduledObserverImpl", cfg, workers=2, timeout=900)
+        res = tlc.run("ScheduledObserverImpl", cfg, workers=1, timeout=900)
         ck.note("negative_control_keep_acquired_refuted", res.violated == "NothingLeftBehind")
         if res.violated != "NothingLeftBehind":
             raise tlc.TLCFailure("negative control of ScheduledObserverImpl was not refuted")
+        return []
+    tasks = [abstract, lambda: impl({1}, True, 3 if quick else 4)]
+    if not quick:
+        tasks += [lambda: impl({1, 2}, False, 4), control]
+    with ThreadPoolExecutor(len(tasks)) as ex:
+        for fut in [ex.submit(t) for t in tasks]:
+            for res, label in fut.result():
+                ck.add_tlc(res, label)
 
 
 def so_run(pid: str, tier: str, rule: str, assumptions: List[str]) -> int:
@@ -1089,7 +1101,7 @@ def so_run(pid: str, tier: str, rule: str, assumptions: List[str]) -> int:
     jobs = []
     for sc in scs:
         if quick:
-            jobs.append((sc, bound, 60, 1, ck.seed, True))
+            jobs.append((sc, bound, sc["budget"], 1, ck.seed, True))
         else:
             jobs.append((sc, bound, 1200, 100, ck.seed, True))
             jobs.append((sc, bound, 300, 30, ck.seed + 1, False))
@@ -1159,7 +1171,7 @@ def so_run(pid: str, tier: str, rule: str, assumptions: List[str]) -> int:
 def so_replay(rec: Dict[str, Any]) -> int:
     sc = rec["scenario"]
     print("scenario:", json.dumps(sc))
-    focus = FOCUS_C32 + (("reactivex/subject/replaysubject.py",) if sc["kind"] == "replay" else ()) if rec.get("line_switch_points", True) else ()
+    focus = FOCUS_C32 if rec.get("line_switch_points", True) else ()
     with patched_for(_so_patch_table()):
         ds = _run_execution(so_build(sc), replay_choose(rec["decisions"]), focus=focus, max_steps=6000)
     trs = so_traces(ds)
